@@ -367,6 +367,7 @@ def part_b(chk, E, tmp):
     subjects.append((f"personalize mode_posterior seed={seed}", perso_thunk("mode_posterior", seed, n_iter=15)))
     subjects.append((f"personalize scipy_minimize seed={seed}", perso_thunk("scipy_minimize", seed)))
     subjects.append((f"simulate seed={seed}", sim_thunk(seed)))
+    subjects.append(("simulate seed=0", sim_thunk(0)))          # 0 is a seed like any other
     # reference results first, all of them, before any other activity took place in this interpreter
     # (an activity that leaves something behind would otherwise already be part of a later subject's reference)
     refs = {}
